@@ -41,11 +41,15 @@ CHECKS = {
          "Every value of the 83-value universe is decoded into 19 target field types (all integer widths, f32/f64, bool, String, Option, Vec, nested Vec, tuple) by the real deserializer; TLC compares each outcome with "
          "Decode!Outcome: a value is produced iff it is representable, and then it is exactly the row's value.",
          "Bounded universe; f64->f32 narrowing and float->integer are not judged (the property does not speak of them); EdgeParameters decoding not yet driven."),
- "C02": (EX, "6/C02", "replay of uniform and seeded per-call batching policies (eager prefetch, chunked read-ahead) on the real engine; row sequence compared with the unbatched run",
-         "Every executable instance is run under 5 uniform and 8 (thorough 24) random per-resolver-call policies (eager flag x chunk 1..3) through the Batching wrapper; the row sequence must equal the unbatched run and nothing may panic.",
-         "The Batching wrapper is order-preserving by construction; policies are sampled, not exhaustive, at this level."),
- "C03": (MC, "6/C03", "TLC judge (JudgeLazy): pulled-start-vertex counts of real runs vs Sem!RowsFrom provenance at every prefix; no access before first request or after drop",
-         "For every executable instance the real engine runs over a counting adapter that never reads ahead; TLC checks pulled(k) <= index of the start vertex that Sem says contributes row k, zero accesses before the first next(), and zero accesses after dropping at every prefix k <= 6.",
+ "C02": (MC, "6/C02", "TLC explores spec/Interp.tla over every schedule of a general bounded-buffer order-preserving adapter; real AdapterTap traces of batched runs validated against it; TLC-generated schedules replayed on the real engine",
+         "Interp.tla is a small-step model of execution.rs (stages, query carriers, folds, recursion) with the adapter's pull/yield choices nondeterministic. TLC checks on every schedule (buffer <= 2, pulls inside resolver calls) of small real-IR instances that "
+         "no carrier is used while lent, nothing panics, and the row sequence equals the real engine's unbatched rows. Bound to the code three ways: recorded traces of Tap(Batching(GA)) must be behaviours of Interp (policy inferred), TLC-generated "
+         "decision strings are replayed through the Scripted adapter (rows must equal the unbatched run), and sampled per-call policies are compared real-vs-real.",
+         "Exhaustive only for small instances and buffer 2; larger instances by simulation and sampled policies. Trace rejections that violate no property observer are reported as MODEL-DRIFT."),
+ "C03": (MC, "6/C03", "TLC: Lazy invariant of spec/Interp.tla (no read-ahead configuration) + real traces validated against that configuration + JudgeLazy (pull counts vs Sem!RowsFrom provenance at every prefix, no access before first request / after drop)",
+         "Model: in every reachable state of Interp with Cap = 1 and no pulls inside calls, nothing is fetched unless the consumer is waiting, no stage holds buffered data between requests, and each row comes from the last start vertex fetched. "
+         "Code: the real unbatched traces must be behaviours of exactly that configuration (Lazy evaluated after every event), and for every executable instance the pulled-start-vertex count at each row is bounded by the "
+         "position of the start vertex that Sem says contributes it; zero accesses before the first next() and after dropping at every prefix k <= 6.",
          "If a row could come from several start vertices the largest index is used (lenient, never a false alarm); trusts Sem!RowsFrom."),
  "C04": (MC, "6/C04", "TLC judge: row bag of the real engine over a hint-pruning adapter = Sem.tla rows",
          "Every instance is executed through the Pruning adapter, which discards start vertices and neighbours outside statically/dynamically required property candidates or lacking a mandatory edge (recursively through destination().edges); TLC compares the bag with Sem.",
@@ -56,9 +60,10 @@ CHECKS = {
  "C14": (EX, "6/C14", "byte comparison of full observations (IR or error text, rows in order, resolver calls with parameters, per-call context sequence) across fresh processes",
          "Every instance (including frontend-rejected ones) is observed in 3 (thorough 8) fresh processes with fresh hash seeds, one in reverse instance order; the serialised observations must be byte-identical.",
          "The deciding observation is byte equality across processes; the model supplies the input space."),
- "C15": (EX, "6/C15", "rows through the repository's AdapterTap = direct rows; RON round trip of the trace; replay by replay::assert_interpreted_results without the data source",
-         "Every executable instance is traced by AdapterTap, the trace is serialised to RON and back (must be equal) and replayed by the repository's TraceReaderAdapter, which must reproduce the rows.",
-         "Exploration until the trace specification (InterpTrace) validates the same traces."),
+ "C15": (MC, "6/C15", "rows through AdapterTap = direct rows; RON round trip; replay by replay::assert_interpreted_results; the recorded trace validated by TLC as a behaviour of spec/Interp.tla (InterpTrace)",
+         "Every executable instance is traced by the repository's AdapterTap; the trace is serialised to RON and back (must be equal), replayed by the repository's TraceReaderAdapter without the data source (must reproduce the rows), "
+         "and, exported event by event with the projected DataContext at each yield, validated by TLC against the operational specification.",
+         "Trace validation covers instances with <= 30 rows and <= 1500 events; rejections that are not row mismatches are reported as MODEL-DRIFT."),
  "C21": (MC, "6/C21", "TLC judge (JudgeCalls/Contract!ContractOK): every resolver call of real runs judged against the abstract schema",
          "Every resolver call of the real engine (type, field, coercion target, parameters, concrete types of active vertices) is judged by TLC against Contract!ContractOK.",
          "Same universe as C01; trusts the CallLog wrapper."),
